@@ -898,12 +898,12 @@ def h_two_fills(ctx, free_bits):
         pin(PY, nfree)
     PX, PY = PX << k, PY << k
     fills = [
-        [_rect(0, 0, 4, 4, [1, 2]), _rect(5, 1, 1, 1, [3])],
+        [_rect(0, 0, 4, 4, [1, 2]), _rect(5, 1, 1, 1, [0, 3])],
         # the same chips, other cores (one 4x4 block no longer uniform)
         [_rect(0, 0, 4, 4, [2]), _rect(1, 1, 1, 1, [1]),
          _rect(5, 1, 1, 1, [3, 17])],
-        # other chips
-        [_rect(4, 4, 4, 4, [1, 2])],
+        # other chips, the first and the last core
+        [_rect(4, 4, 4, 4, [0, 17])],
     ]
     sent = []
 
